@@ -363,6 +363,23 @@ def r4_config_coverage(r, facts):
         for op in rvalue_operands(s['rv']):
             if op.get('k') == 'const' and 'IORING_SETUP_' in (op.get('def') or ''):
                 flag_guard.setdefault(op['def'].rsplit('::', 1)[1], set()).update(guards if guards else {'<unconditional>'})
+    # ... and what a setting switched on is still there when the kernel is asked: bit-level must-analysis from each place a
+    # setup flag enters parameters.flags (or a local on its way there) to io_uring_setup — a later plain assignment
+    # (`parameters.flags = flags` after `parameters.flags |= CQSIZE`) loses it
+    from .kernel import must_have_bits
+    setup0 = [loc for loc, t in f.calls() if (t.get('callee') or '').endswith('io_uring_setup')]
+    if setup0:
+        for loc, s in f.assigns():
+            lhs = s['lhs']
+            fl = [p for p in lhs['p'] if p['k'] == 'field']
+            is_flags = bool(fl) and (fl[-1].get('adt') or '').endswith('io_uring_params') and fl[-1]['name'] == 'flags' and lhs['p'][-1]['k'] == 'field'
+            if not (is_flags or (not lhs['p'] and lhs['l'] in carriers)) or s['rv']['k'] not in ('use', 'bin', 'cast'):
+                continue
+            for op in rvalue_operands(s['rv']):
+                if op.get('k') == 'const' and 'IORING_SETUP_' in (op.get('def') or '') and f.cval(op):
+                    key = 'FIELD' if is_flags else lhs['l']
+                    kept = must_have_bits(f, f.cval(op), setup0[0], field='flags', struct_suffix='io_uring_params', start=(loc, {key}))
+                    r.require(kept, 'config:flag-lost:%s' % op['def'].rsplit('::', 1)[1], 'setup flag %s is set here but no longer part of io_uring_params.flags when io_uring_setup is called (overwritten by a later write)' % op['def'].rsplit('::', 1)[1], f.where(loc))
     if carriers:
         # what the final store of the accumulated value contributed as "unconditional" above is not a statement about the flags
         for fg, gs in flag_guard.items():
